@@ -59,11 +59,14 @@ pub fn generate(thorough: bool, seed: u64, em: &mut Emitter) {
     for i in 0..n {
         let mut rc = r.fork();
         let r = &mut rc;
-        let claims = gen::gen_object(r, 3, 3, 1);
-        let marks = gen::gen_marking(r, &claims, true);
+        let (claims, marks) = gen::claims_and_marking(r, i, 3, 3);
         let alg = if r.chance(1, 5) { *r.pick(&indep::ALGS) } else { "sha-256" };
         let opts = RefOpts { alg: alg.to_string(), decoys: r.chance(1, 4), odd_format: r.chance(1, 4) };
-        let tok = ref_issue(r, &claims, &marks, &opts);
+        let mut tok = ref_issue(r, &claims, &marks, &opts);
+        if alg == "sha-256" && r.chance(1, 6) {
+            // a conformant issuer may rely on the default digest algorithm and leave _sd_alg out
+            tok.payload.as_object_mut().unwrap().remove("_sd_alg");
+        }
         let own: Vec<String> = tok.discs.iter().map(|d| d.string.clone()).collect();
         let mut extra = Vec::new();
         let (list, mode): (Vec<String>, &str) = if i % 3 == 0 {
@@ -78,7 +81,7 @@ pub fn generate(thorough: bool, seed: u64, em: &mut Emitter) {
                 }
             }
             // iterate to a fixed point (nesting deeper than one level)
-            for _ in 0..4 {
+            for _ in 0..tok.discs.len() {
                 for (a, da) in tok.discs.iter().enumerate() {
                     for (b, db) in tok.discs.iter().enumerate() {
                         if a != b && gen::is_prefix(&db.path, &da.path) && !keep[b] {
